@@ -446,6 +446,41 @@ fn parent(id: &str, tier: &str) -> ! {
             Err(e) => machinery_failure(&format!("cannot run {}: {e}", e1.display())),
         }
     }
+    if id == "C09" {
+        // the parts of the statement outside boxcar.rs: sequentially consistent monitors (runs never
+        // overlap, a matcher scratch slot is used by exactly one pool thread) evaluated in every
+        // execution of the scheduler scenarios with two worker threads (sibling binary)
+        let e1 = common::verif_root().join("target").join("release").join("e1");
+        let e1 = std::env::var("VERIF_E1_BIN").map(std::path::PathBuf::from).unwrap_or(e1);
+        match std::process::Command::new(&e1).args(["c09-e2", tier]).output() {
+            Ok(out) if out.status.success() => {
+                let stdout = String::from_utf8_lossy(&out.stdout).to_string();
+                let v: Value = serde_json::from_str(stdout.lines().last().unwrap_or("")).unwrap_or(Value::Null);
+                let ex = v["executions"].as_u64().unwrap_or(0);
+                if ex == 0 {
+                    machinery_failure("scheduler C09 child reported no executions");
+                }
+                rep.acc.evaluations += ex;
+                rep.acc.states += ex;
+                rep.acc.traces += ex;
+                rep.acc.transitions += v["transitions"].as_u64().unwrap_or(0);
+                rep.extra("scheduler_executions_monitored", json!(ex));
+                rep.extra("scheduler_bound", v["bound"].clone());
+                for vl in v["violations"].as_array().cloned().unwrap_or_default() {
+                    let sig = vl["sig"].as_str().unwrap_or("C09/e2/?").to_owned();
+                    let what = vl["what"].as_str().unwrap_or("").to_owned();
+                    for ex in vl["examples"].as_array().cloned().unwrap_or_default() {
+                        rep.acc.violation(&sig, &what, || ex);
+                    }
+                    if let Some(c) = rep.acc.violations.get_mut(&sig) {
+                        c.count = c.count.max(vl["count"].as_u64().unwrap_or(1));
+                    }
+                }
+            }
+            Ok(out) => machinery_failure(&format!("scheduler C09 child failed: {:?} {}", out.status, String::from_utf8_lossy(&out.stdout).chars().rev().take(300).collect::<String>().chars().rev().collect::<String>())),
+            Err(e) => machinery_failure(&format!("cannot run {}: {e}", e1.display())),
+        }
+    }
     rep.extra("bodies", json!(bodies_json));
     rep.exhaustive = all_unbounded;
     rep.bound = bodies
